@@ -37,9 +37,18 @@ new_globals = globals()
 new_globals["__file__"] = pathname
 sys.path.insert(0, os.path.dirname(pathname))
 
-# compile with the real file name so that tracebacks, warnings and inspect
-# show the script (and its source lines) just like a normal run
-code = compile(open(sys.argv[0]).read(), pathname, "exec")
-sys.setprofile(uftrace_python.trace)
-exec(code, new_globals)
+try:
+    # compile with the real file name so that tracebacks, warnings and inspect
+    # show the script (and its source lines) just like a normal run
+    code = compile(open(sys.argv[0]).read(), pathname, "exec")
+    sys.setprofile(uftrace_python.trace)
+    exec(code, new_globals)
+except Exception:
+    sys.setprofile(None)
+    # report it the way the interpreter does for the script itself:
+    # without the frames of runpy and of this loader, exit status 1
+    exc_type, exc_value, exc_tb = sys.exc_info()
+    exc_value.__traceback__ = exc_tb.tb_next
+    sys.excepthook(exc_type, exc_value, exc_tb.tb_next)
+    sys.exit(1)
 sys.setprofile(None)
